@@ -97,7 +97,7 @@ def gen_cases(rng: Rng, tier):
             N = rng.choice([1, 2, 2, 3, 4, 5, 6, 7])
             if k % 40 == 11:
                 # sizes just above powers of two / typical block sizes, everything else tiny
-                N, K = rng.choice([33, 65, 129] if tier == "quick" else [33, 65, 129, 201, 257]), rng.randint(1, 2)
+                N, K = rng.choice([33, 65, 129] if tier == "quick" else [33, 65, 129, 129, 201, 257]), rng.randint(1, 2)
                 m = rng.randint(max(3, K + 1), 4)
             C, ck = _coef(rng, N, K)
             case = dict(kind=kind, lay=rng.choice(LAYOUTS), dtype=rng.choice(["float", "float", "float", "int"]), fam=fam, K=K, t=[rs(x) for x in _grid(rng, m, unit=(fam in ("wiener",)))],
